@@ -489,7 +489,7 @@ fn drive_letter(input: ParseInput) -> ParseResult<u8> {
     let (input, drive_letter) = take(1)(input)?;
 
     // Drive letter should ONLY be a-zA-Z
-    if !(drive_letter[0] as char).is_alphabetic() {
+    if !drive_letter[0].is_ascii_alphabetic() {
         return Err("drive not alphabetic");
     }
 
